@@ -78,6 +78,11 @@ def obligations(tier):
     for tb in range(4):
         obs.append(Ob('text:%d' % tb, 'text', {'tb': tb}, timeout=900, path_timeout=60, twin=True, functions=FUNCS[5:8] + FUNCS[9:] + FUNCS[:5],
                       bounds='presence of each of 8 rule keys symbolic (2 fixed per obligation); 8 messages'))
+    for via in ('match', 'proxy'):
+        obs.append(Ob('same:%s' % via, 'same', {'via': via}, timeout=300, path_timeout=60, twin=True,
+                      functions=FUNCS[5:9] + FUNCS[:5],
+                      bounds='three subscriptions on one connection, two of them with identical constraints; which are '
+                             'removed, and in which order: symbolic selectors'))
     obs.append(Ob('proxy:signature', 'proxy', {}, timeout=300, path_timeout=60, twin=True, functions=FUNCS[8:9] + FUNCS[5:8],
                   bounds='message selector over 6 signals'))
     return obs
@@ -247,7 +252,7 @@ def build(family, p):
         wit = [(encode_choice((w[1:] if first is not None else w)[:nfree], [9] * nfree),) for w in wit]
         return Spec(h, [('code', int)], witnesses=wit)
 
-    if family in ('text', 'proxy'):
+    if family in ('text', 'proxy', 'same'):
         return _build_client(family, p)
     raise KeyError(family)
 
@@ -356,6 +361,84 @@ def _build_client(family, p):
         names = ['b_member', 'b_path', 'b_ns', 'b_dest', 'b_arg', 'b_argp']
         return Spec(h, [(n, bool) for n in names],
                     witnesses=[tuple([True] * 6), tuple([False] * 6), (True, False, True, False, True, False)])
+
+    if family == 'same':
+        via = p['via']
+        SHAPES = [dict(mtype='signal', interface='org.a.I', member='Sig', path='/a'), dict(member='Sig'), dict()]
+        sizes = [len(SHAPES), 2, 4, 2]
+
+        def h(code):
+            sel = decode_choice(code, sizes)
+            with notrace():
+                run(sel)
+            reached()
+
+        def run(sel):
+            shape, third_same, removed, order = sel
+            fresh_clock()
+            message.DBusMessage._nextSerial = 1
+            conn = _mk_conn(client)
+            message.DBusMessage._nextSerial = 40
+            serial = [100]
+
+            def ack():
+                w = [e[1] for e in conn.transport.events if e[0] == 'write']
+                call = message.parseMessage(w[-1], [])
+                serial[0] += 1
+                message.DBusMessage._nextSerial = serial[0]
+                conn.methodReturnReceived(message.MethodReturnMessage(call.serial))
+                return call
+            got = {'A': [], 'B': [], 'C': []}
+            ids = {}
+            if via == 'proxy':
+                iface = interface.DBusInterface('org.a.I', interface.Signal('Sig', 's'), interface.Signal('Other', 's'),
+                                                noRegister=True)
+                ro = objects.RemoteDBusObject(conn.objHandler, 'org.b', '/a', [iface])
+                ro2 = objects.RemoteDBusObject(conn.objHandler, 'org.b', '/a', [iface]) if shape == 1 else ro
+                subs = [('A', ro, 'Sig'), ('B', ro2, 'Sig'), ('C', ro, 'Sig' if third_same else 'Other')]
+                for name, r, signame in subs:
+                    res = []
+                    r.notifyOnSignal(signame, (lambda n: lambda *a: got[n].append(a))(name)).addCallback(res.append)
+                    ack()
+                    check(len(res) == 1, 'subscription did not complete with a rule id')
+                    ids[name] = (r, res[0])
+                wants = {'A': 'Sig', 'B': 'Sig', 'C': 'Sig' if third_same else 'Other'}
+            else:
+                kws = {'A': SHAPES[shape], 'B': SHAPES[shape], 'C': SHAPES[shape] if third_same else dict(member='Other')}
+                for name in 'ABC':
+                    res = []
+                    conn.addMatch((lambda n: lambda m: got[n].append(m))(name), **kws[name]).addCallback(res.append)
+                    ack()
+                    check(len(res) == 1, 'addMatch did not complete with a rule id')
+                    ids[name] = (None, res[0])
+                wants = {n: kws[n].get('member') for n in 'ABC'}
+            check(len({v[1] for v in ids.values()}) == 3, 'two live subscriptions share a rule id')
+            gone = [[], ['A'], ['B'], ['A', 'B']][removed]
+            if order:
+                gone = list(reversed(gone))
+            for name in gone:
+                r, rid = ids[name]
+                if r is not None:
+                    r.cancelSignalNotification(rid)
+                else:
+                    conn.delMatch(rid)
+                ack()
+            for member in ('Sig', 'Other'):
+                for n in got:
+                    got[n][:] = []
+                message.DBusMessage._nextSerial = 900
+                conn.signalReceived(message.SignalMessage('/a', member, 'org.a.I', signature='s', body=['v']))
+                for n in 'ABC':
+                    want = 0 if n in gone else (1 if wants[n] in (None, member) else 0)
+                    check(len(got[n]) == want,
+                          'a subscription is served iff it was not removed and the signal satisfies its rule '
+                          '(removing one subscription must not affect another with the same constraints)')
+        h.__name__ = 'same'
+        total = 1
+        for z in sizes:
+            total *= z
+        return Spec(h, [('code', int)], witnesses=[(0,), (total - 1,), (encode_choice([0, 1, 1, 0], sizes),),
+                                                   (encode_choice([1, 0, 2, 1], sizes),)])
 
     def h(mi):
         message.DBusMessage._nextSerial = 1
